@@ -98,6 +98,24 @@ var c26Pieces = []piece{
 	{"paren-string-bracket", []seg{c("f(len("), s(`")"`), c("),\n\t2)\n")}},
 }
 
+// lines longer than bufio's default buffer (4096 bytes): the reader must still see them
+// as one line
+func init() {
+	long := func(unit string, n int) string {
+		var b bytes.Buffer
+		for i := 0; i < n; i++ {
+			b.WriteString(unit)
+		}
+		return b.String()
+	}
+	c26Pieces = append(c26Pieces,
+		piece{"long-line-comment", []seg{k("// " + long("{ ( ' \" [ ` word ", 280) + "\n")}},
+		piece{"long-code-line", []seg{c("x = 1" + long("; x = 2", 700) + "\n")}},
+		piece{"long-string", []seg{c("s = "), s("\"" + long("ab } ) ' // ", 400) + "\""), c("\n")}},
+		piece{"long-stmt-then-comment", []seg{c("f(" + long("1, ", 1500) + "2) "), k("// tail { ' \"\n")}},
+	)
+}
+
 var c26Shebang = piece{"shebang", []seg{k("#!/usr/bin/env gomacro { \" '\n")}}
 
 type genStream struct {
